@@ -14,6 +14,88 @@ def TABLES():
     out.append('def initialSerial : Int := %d' % type(process.GlobalSerial)().serial)
     out.extend(accept_order())
     out.extend(owner_test())
+    out.extend(subscription_tables())
+    out.extend(group_steps())
+    return out
+
+
+def subscription_tables():
+    """what a pool subscribes to and when: `EventListenerPool._subscribe` / `_unsubscribe` as lists of
+    (which event type, which bound method), whether `__init__` subscribes and whether `before_remove` unsubscribes.
+    Model/Pool.lean (`subscribePool`, `unsubscribePool`) interprets these."""
+    import ast, os
+    from extract import REPO, find_func, Untranslatable, lean_str
+    tree = ast.parse(open(os.path.join(REPO, 'supervisor/process.py')).read())
+    src = ast.unparse
+    out = ['', '-- one registration made by EventListenerPool._subscribe / undone by _unsubscribe',
+           'inductive SubEntry where',
+           '  | eachPoolEvent (cb : String)   -- for event_type in self.config.pool_events: events.<f>(event_type, self.<cb>)',
+           '  | rejectedEvent (cb : String)   -- events.<f>(events.EventRejectedEvent, self.<cb>)',
+           'deriving DecidableEq, Repr']
+
+    def entries(qual, fname):
+        f = find_func(tree, qual)
+        res = []
+        for st in f.body:
+            if isinstance(st, ast.Expr) and isinstance(st.value, ast.Constant):
+                continue
+            if isinstance(st, ast.For) and isinstance(st.target, ast.Name) and src(st.iter) == 'self.config.pool_events' and not st.orelse \
+                    and len(st.body) == 1 and isinstance(st.body[0], ast.Expr) and isinstance(st.body[0].value, ast.Call):
+                c = st.body[0].value
+                a = [src(x) for x in c.args]
+                if src(c.func) == 'events.' + fname and len(a) == 2 and a[0] == st.target.id and a[1].startswith('self.') and not c.keywords:
+                    res.append('.eachPoolEvent %s' % lean_str(a[1][5:]))
+                    continue
+            if isinstance(st, ast.Expr) and isinstance(st.value, ast.Call):
+                c = st.value
+                a = [src(x) for x in c.args]
+                if src(c.func) == 'events.' + fname and len(a) == 2 and a[0] == 'events.EventRejectedEvent' and a[1].startswith('self.') and not c.keywords:
+                    res.append('.rejectedEvent %s' % lean_str(a[1][5:]))
+                    continue
+            raise Untranslatable('%s: statement not covered: %s' % (qual, src(st).replace('\n', ' ')))
+        return f.lineno, res
+
+    for ident, qual, fname in (('poolSubscribe', 'EventListenerPool._subscribe', 'subscribe'),
+                               ('poolUnsubscribe', 'EventListenerPool._unsubscribe', 'unsubscribe')):
+        try:
+            ln, res = entries(qual, fname)
+            out.append('-- %s:%d' % (qual, ln))
+            out.append('def %s : List SubEntry := [%s]' % (ident, ', '.join(res)))
+        except Untranslatable as ex:
+            out.append('-- %s  UNTRANSLATED (%s)' % (ident, ex))
+
+    def calls_self(qual, meth):
+        f = find_func(tree, qual)
+        return any(isinstance(n, ast.Call) and src(n.func) == 'self.' + meth for n in ast.walk(f))
+    out.append('-- EventListenerPool.__init__ calls self._subscribe(); EventListenerPool.before_remove calls self._unsubscribe()')
+    out.append('def initSubscribes : Bool := %s' % ('true' if calls_self('EventListenerPool.__init__', '_subscribe') else 'false'))
+    out.append('def beforeRemoveUnsubscribes : Bool := %s' % ('true' if calls_self('EventListenerPool.before_remove', '_unsubscribe') else 'false'))
+    return out
+
+
+def group_steps():
+    """Supervisor.add_process_group / remove_process_group as statement lists (the extraction of sites/notify.py, emitted here
+    as well so that the pool model can execute a removal / an addition of a pool at run time the way the source does)"""
+    import ast, os
+    from extract import REPO, find_func
+    from sites import notify as nt
+    stree = ast.parse(open(os.path.join(REPO, 'supervisor/supervisord.py')).read())
+    out = ['', '/-- one effect of add_process_group / remove_process_group, in source order (as Sv.Gen.Notify.Step) -/',
+           'inductive GStep where',
+           '  | call (f : String)          -- an opaque call on the config / the group (after_setuid, before_remove ...)',
+           '  | insertMade (f : String)    -- self.process_groups[name] = config.<f>()',
+           '  | delete                     -- del self.process_groups[name]',
+           '  | notify (cls : String)      -- events.notify(events.<cls>(name))',
+           '  | ret (b : Bool)',
+           '  | retIfUnstopped (b : Bool)  -- if self.process_groups[name].get_unstopped_processes(): return <b>',
+           'deriving DecidableEq, Repr']
+    test, absent, present = nt._add_group(stree)
+    out.append('-- Supervisor.add_process_group (membership test `%s`)' % test)
+    out.append('def groupAddWhenAbsent : List GStep := [%s]' % ', '.join(absent))
+    out.append('def groupAddWhenPresent : List GStep := [%s]' % ', '.join(present))
+    rf = find_func(stree, 'Supervisor.remove_process_group')
+    out.append('-- Supervisor.remove_process_group')
+    out.append('def groupRemoveSteps : List GStep := [%s]' % ', '.join(nt._steps(rf.body, nt._name_var(rf))))
     return out
 
 
